@@ -39,7 +39,7 @@ def prepare():
 def budgets(tier):
     if tier == 'quick':
         return dict(shards=16, examples=60)
-    return dict(shards=16, examples=2500, deadline_s=3000)
+    return dict(shards=16, examples=7500, deadline_s=3000)
 
 
 # --- conversions between repo packets and reference messages -----------------------------
